@@ -169,15 +169,20 @@ Record WFmoves (ms : list move) (s : Z) (accs : list acc_row) (stx : Z) : Prop :
   wm_tx : forall m, In m ms -> m_tx_seq m < stx
 }.
 
+(* a move refers to a transaction row of its own ledger *)
+Definition move_tx_ok (txs : list tx_row) (m : move) : Prop :=
+  exists r, In r txs /\ x_seq r = m_tx_seq m /\ x_ledger r = m_ledger m.
+
 Record WF (d : db) : Prop := {
   wf_acc : WFacc (d_acc d) (d_accm d) (s_acc d);
   wf_tx : WFtx (d_tx d) (d_txm d) (s_tx d);
-  wf_moves : WFmoves (d_moves d) (s_moves d) (d_acc d) (s_tx d)
+  wf_moves : WFmoves (d_moves d) (s_moves d) (d_acc d) (s_tx d);
+  wf_movetx : forall m, In m (d_moves d) -> move_tx_ok (d_tx d) m
 }.
 
 Lemma WF_empty : WF empty_db.
 Proof.
-  constructor; constructor; cbn; try (intros; contradiction); try constructor.
+  constructor; [constructor | constructor | constructor | ]; cbn; try (intros; contradiction); try constructor.
 Qed.
 
 (* ---- unique rows ------------------------------------------------------------------------------------------------------ *)
@@ -490,6 +495,17 @@ Section InsertMove.
       - intros m Hm. apply in_map_iff in Hm. destruct Hm as [m0 [<- Hm0]].
         pose proof (wm_tx _ _ _ _ Hbase m0 Hm0). unfold g. destruct (_ && _); assumption. }
     destruct ex as [[|]|]; assumption.
+  Qed.
+
+  Lemma im_rows_src : forall m, In m rows ->
+    exists m0, (m0 = new \/ In m0 (d_moves d)) /\ m_tx_seq m = m_tx_seq m0 /\ m_ledger m = m_ledger m0.
+  Proof.
+    rewrite im_rows_eq. intros m Hm.
+    destruct ex as [[|]|].
+    - apply in_map_iff in Hm. destruct Hm as [m0 [<- Hm0]]. exists m0.
+      split; [destruct Hm0; auto|]. destruct (_ && _); split; reflexivity.
+    - exists m. split; [destruct Hm; auto|split; reflexivity].
+    - exists m. split; [destruct Hm; auto|split; reflexivity].
   Qed.
 End InsertMove.
 
@@ -848,6 +864,7 @@ Record tx_step (l : N) (d d' : db) (txs' : list btx -> list btx) : Prop := {
   ts_frame : frame_tx d d';
   ts_stx : s_tx d <= s_tx d';
   ts_tid : forall seq, seq < s_tx d -> txid_of (d_tx d') seq = txid_of (d_tx d) seq;
+  ts_rows : forall r, In r (d_tx d) -> exists r', In r' (d_tx d') /\ x_seq r' = x_seq r /\ x_ledger r' = x_ledger r;
   ts_C : absC l d' = txs' (absC l d);
   ts_C_other : forall l', l' <> l -> absC l' d' = absC l' d
 }.
@@ -893,9 +910,10 @@ Proof.
       assert (In r (filter (tx_is l id) (d_tx d))) as C by (apply filter_In; auto). rewrite EF in C. contradiction. }
     rewrite (map_id_in _ (d_tx d)) by (intros r Hr; rewrite (Hnone r Hr); reflexivity).
     constructor; cbn; try assumption; try (repeat split; fail); try reflexivity; try lia.
-    unfold C_update. symmetry. apply map_id_in. intros r Hr. unfold absC in Hr.
-    apply in_map_iff in Hr. destruct Hr as [r0 [<- Hr0]]. apply filter_In in Hr0. destruct Hr0 as [Hr0 Hr0l].
-    pose proof (Hnone r0 Hr0) as F. unfold tx_is in F. rewrite Hr0l in F. cbn in F |- *. rewrite F. reflexivity.
+    + intros r Hr. exists r. auto.
+    + unfold C_update. symmetry. apply map_id_in. intros r Hr. unfold absC in Hr.
+      apply in_map_iff in Hr. destruct Hr as [r0 [<- Hr0]]. apply filter_In in Hr0. destruct Hr0 as [Hr0 Hr0l].
+      pose proof (Hnone r0 Hr0) as F. unfold tx_is in F. rewrite Hr0l in F. cbn in F |- *. rewrite F. reflexivity.
   - assert (Hino : In old (filter (tx_is l id) (d_tx d))) by (rewrite EF; left; reflexivity).
     apply filter_In in Hino. destruct Hino as [Hin Hp]. unfold tx_is in Hp. apply andb_prop in Hp.
     destruct Hp as [Hl Hid]. apply N.eqb_eq in Hl. apply Z.eqb_eq in Hid.
@@ -939,15 +957,18 @@ Proof.
       destruct (filter (fun r => Z.eqb (x_seq r) seq) (d_tx d)) as [|r t] eqn:EQ; cbn; [reflexivity|].
       assert (In r (d_tx d)) as Hr. { assert (In r (filter (fun r => Z.eqb (x_seq r) seq) (d_tx d))) as X by (rewrite EQ; left; reflexivity). apply filter_In in X. tauto. }
       apply Hupd. assumption.
+    + intros r Hr. exists (upd r). split; [apply in_map_iff; exists r; auto|]. destruct (Hupd r Hr) as [-> [-> _]]. auto.
     + unfold absC, C_update. cbn [d_tx d_txm set_txm set_tx]. rewrite filter_map_comm, Hfl, !map_map.
       apply map_ext_in'. intros r Hr. apply filter_In in Hr. destruct Hr as [Hr Hrl]. apply N.eqb_eq in Hrl.
       unfold upd. destruct (Z.eqb_spec (x_seq r) (x_seq old)) as [E|E].
       * assert (r = old) as -> by (apply (NoDup_map_inj x_seq (d_tx d)); auto; apply Hw).
-        cbn [btx_of bx_id]. rewrite Hid, Z.eqb_refl. Show. rewrite Hg, EU.
-        unfold btx_of at 1. cbn [f tx_with x_id x_ts x_ref x_reverted_at x_updated_at x_postings x_meta x_seq filter xm_tx_seq].
-        rewrite Z.eqb_refl. cbn [map]. rewrite EU. f_equal. f_equal.
-        unfold crev_of at 1. cbn [xm_rev xm_date xm_meta]. f_equal. f_equal.
-        unfold C_next_rev. unfold btx_of at 1. cbn [bx_hist]. rewrite <- txm_rev_map, EP. reflexivity.
+        cbn [btx_of bx_id]. rewrite Hid, Z.eqb_refl. rewrite Hg, EU.
+        unfold btx_of, f, tx_with.
+        cbn [x_id x_ts x_ref x_reverted_at x_updated_at x_postings x_meta x_seq filter xm_tx_seq
+             bx_ts bx_ref bx_postings bx_hist].
+        rewrite Z.eqb_refl. cbn [map]. unfold crev_of at 1. cbn [xm_rev xm_date xm_meta].
+        rewrite EU. f_equal; [congruence|]. f_equal. f_equal. f_equal.
+        unfold C_next_rev. rewrite <- txm_rev_map, EP. reflexivity.
       * assert (Z.eqb (bx_id (btx_of (d_txm d) r)) id = false) as ->.
         { cbn. apply Z.eqb_neq. intros Ha. apply E. f_equal.
           apply (NoDup_map_inj (fun r => (x_ledger r, x_id r)) (d_tx d)); auto. apply Hw. cbn. congruence. }
@@ -960,3 +981,443 @@ Proof.
       * unfold btx_of. f_equal. cbn [filter xm_tx_seq f tx_with x_seq].
         assert (Z.eqb (x_seq old) (x_seq r) = false) as -> by (apply Z.eqb_neq; congruence). reflexivity.
 Qed.
+
+(* ---- Part 5: insert_posting ------------------------------------------------------------------------------------------- *)
+Definition frame_post (d d' : db) : Prop :=
+  d_tx d' = d_tx d /\ d_txm d' = d_txm d /\ s_tx d' = s_tx d /\ s_txm d' = s_txm d /\ d_logs d' = d_logs d /\
+  s_logs d' = s_logs d.
+
+Lemma frame_post_refl : forall d, frame_post d d.
+Proof. intros; repeat split. Qed.
+Lemma frame_post_trans : forall a b c, frame_post a b -> frame_post b c -> frame_post a c.
+Proof. unfold frame_post. intros a b c H1 H2. intuition congruence. Qed.
+
+Lemma find_account_ext : forall d d' l a, d_acc d' = d_acc d -> find_account d' l a = find_account d l a.
+Proof. intros. unfold find_account. rewrite H. reflexivity. Qed.
+
+Lemma absB_ext : forall d d' l, d_acc d' = d_acc d -> d_accm d' = d_accm d -> absB l d' = absB l d.
+Proof. intros. unfold absB. rewrite H, H0. reflexivity. Qed.
+
+Record WFam (d : db) (stx : Z) : Prop := {
+  wam_acc : WFacc (d_acc d) (d_accm d) (s_acc d);
+  wam_moves : WFmoves (d_moves d) (s_moves d) (d_acc d) stx;
+  wam_tx : forall m, In m (d_moves d) -> move_tx_ok (d_tx d) m
+}.
+
+Lemma WFmoves_accs : forall ms s accs accs' stx,
+  WFmoves ms s accs stx -> (forall m, move_acc_ok accs m -> move_acc_ok accs' m) -> WFmoves ms s accs' stx.
+Proof. intros ms s accs accs' stx H Hm. destruct H. constructor; auto. Qed.
+
+(* the per-ledger picture of the accounts+moves part of a database *)
+Definition viewA (l : N) (tid : Z -> Z) (d : db) : stateA := (abs_known l (d_acc d), abs_moves l tid (d_moves d)).
+
+Lemma insert_posting_step : forall d tx_seq l ins eff am p stx tid,
+  WFam d stx -> tx_seq < stx ->
+  (exists r, In r (d_tx d) /\ x_seq r = tx_seq /\ x_ledger r = l) ->
+  exists d', insert_posting d tx_seq l ins eff am p = Some d' /\ WFam d' stx /\ frame_post d d' /\
+    viewA l tid d' = A_posting (tid tx_seq) ins eff (viewA l tid d) p /\
+    (forall l', l' <> l -> viewA l' tid d' = viewA l' tid d) /\
+    absB l d' = B_posting ins am (absB l d) p /\
+    (forall l', l' <> l -> absB l' d' = absB l' d) /\
+    (forall l' a', find_account d l' a' <> None -> find_account d' l' a' <> None).
+Proof.
+  intros d tx_seq l ins eff am p stx tid [Hwa Hwm Hmt] Htx Htxrow. unfold insert_posting.
+  set (sx := option_map (fun _ => true) (find_account d l (p_src p))).
+  set (dx := option_map (fun _ => true) (find_account d l (p_dst p))).
+  destruct (upsert_account_step d l (p_src p) (am_get am (p_src p)) ins Hwa) as [S1 F1].
+  set (d1 := upsert_account d l (p_src p) (am_get am (p_src p)) ins) in *.
+  destruct (upsert_account_step d1 l (p_dst p) (am_get am (p_dst p)) ins (as_wf _ _ _ _ _ S1)) as [S2 F2].
+  set (d2 := upsert_account d1 l (p_dst p) (am_get am (p_dst p)) ins) in *.
+  destruct (as_frame _ _ _ _ _ S1) as [M1 [SM1 [T1 [TM1 [ST1 [STM1 [L1 SL1]]]]]]].
+  destruct (as_frame _ _ _ _ _ S2) as [M2 [SM2 [T2 [TM2 [ST2 [STM2 [L2 SL2]]]]]]].
+  (* first move *)
+  assert (Hwm2 : WFmoves (d_moves d2) (s_moves d2) (d_acc d2) stx).
+  { rewrite M2, M1, SM2, SM1. apply (WFmoves_accs _ _ (d_acc d)); [assumption|].
+    intros m Hm. apply (as_moves _ _ _ _ _ S2). apply (as_moves _ _ _ _ _ S1). assumption. }
+  destruct (find_account d2 l (p_src p)) as [acs|] eqn:EA1.
+  2:{ exfalso. apply (as_mono _ _ _ _ _ S2 l (p_src p)); assumption. }
+  rewrite (insert_move_eq d2 tx_seq l ins eff (p_src p) (p_asset p) (p_amt p) true sx acs EA1).
+  set (new1 := im_new d2 tx_seq l ins eff (p_src p) (p_asset p) (p_amt p) true sx (a_seq acs)).
+  set (rows1 := im_rows d2 new1 eff (p_asset p) (p_amt p) true sx (a_seq acs)).
+  set (d3 := set_moves d2 rows1 (s_moves d2 + 1)).
+  assert (Hwm3 : WFmoves (d_moves d3) (s_moves d3) (d_acc d3) stx).
+  { apply (im_wf d2 tx_seq l ins eff (p_src p) (p_asset p) (p_amt p) true sx acs stx); auto. }
+  assert (Hwa3 : WFacc (d_acc d3) (d_accm d3) (s_acc d3)) by apply S2.
+  destruct (find_account d3 l (p_dst p)) as [acd|] eqn:EA2.
+  2:{ exfalso. rewrite (find_account_ext d2 d3) in EA2 by reflexivity. apply F2. assumption. }
+  rewrite (insert_move_eq d3 tx_seq l ins eff (p_dst p) (p_asset p) (p_amt p) false dx acd EA2).
+  set (new2 := im_new d3 tx_seq l ins eff (p_dst p) (p_asset p) (p_amt p) false dx (a_seq acd)).
+  set (rows2 := im_rows d3 new2 eff (p_asset p) (p_amt p) false dx (a_seq acd)).
+  set (d4 := set_moves d3 rows2 (s_moves d3 + 1)).
+  exists d4. split; [reflexivity|].
+  assert (Hsx : match sx with Some true => true | _ => false end = memN (p_src p) (abs_known l (d_acc d))).
+  { rewrite memN_known. unfold sx. destruct (find_account d l (p_src p)); reflexivity. }
+  assert (Hdx : match dx with Some true => true | _ => false end = memN (p_dst p) (abs_known l (d_acc d))).
+  { rewrite memN_known. unfold dx. destruct (find_account d l (p_dst p)); reflexivity. }
+  split; [|split; [|split; [|split; [|split; [|split]]]]].
+  - constructor; [exact Hwa3| |].
+    + apply (im_wf d3 tx_seq l ins eff (p_dst p) (p_asset p) (p_amt p) false dx acd stx); auto.
+    + assert (Hmt3 : forall m, In m (d_moves d3) -> move_tx_ok (d_tx d) m).
+      { intros m Hm. cbn [d_moves d3 set_moves] in Hm.
+        destruct (im_rows_src d2 tx_seq l ins eff (p_src p) (p_asset p) (p_amt p) true sx acs stx Hwm2 m Hm)
+          as [m0 [[->|Hm0] [E1 E2]]].
+        - destruct Htxrow as [r [Hr [Hs Hl]]]. exists r. rewrite E1, E2. cbn. auto.
+        - rewrite M2, M1 in Hm0. destruct (Hmt m0 Hm0) as [r [Hr [Hs Hl]]]. exists r. rewrite E1, E2. auto. }
+      intros m Hm. cbn [d_moves d_tx d4 set_moves] in Hm |- *.
+      change (d_tx d3) with (d_tx d2). rewrite T2, T1.
+      destruct (im_rows_src d3 tx_seq l ins eff (p_dst p) (p_asset p) (p_amt p) false dx acd stx Hwm3 m Hm)
+        as [m0 [[->|Hm0] [E1 E2]]].
+      * destruct Htxrow as [r [Hr [Hs Hl]]]. exists r. rewrite E1, E2. cbn. auto.
+      * destruct (Hmt3 m0 Hm0) as [r [Hr [Hs Hl]]]. exists r. rewrite E1, E2. auto.
+  - unfold frame_post. cbn. rewrite T2, T1, TM2, TM1, ST2, ST1, STM2, STM1, L2, L1, SL2, SL1. repeat split.
+  - unfold viewA, A_posting. cbn [d_acc d_moves d4 d3 set_moves].
+    rewrite (as_known _ _ _ _ _ S2), (as_known _ _ _ _ _ S1). f_equal.
+    unfold rows2, new2.
+    rewrite (im_abs_same_ledger d3 tx_seq l ins eff (p_dst p) (p_asset p) (p_amt p) false dx acd stx tid Hwa3 Hwm3 EA2).
+    cbn [d_moves d3 set_moves]. unfold rows1, new1.
+    rewrite (im_abs_same_ledger d2 tx_seq l ins eff (p_src p) (p_asset p) (p_amt p) true sx acs stx tid (as_wf _ _ _ _ _ S2) Hwm2 EA1).
+    rewrite M2, M1, Hsx, Hdx. reflexivity.
+  - intros l' Hl'. unfold viewA. cbn [d_acc d_moves d4 d3 set_moves].
+    rewrite (as_known_other _ _ _ _ _ S2 l' Hl'), (as_known_other _ _ _ _ _ S1 l' Hl'). f_equal.
+    unfold rows2, new2.
+    rewrite (im_abs_other_ledger d3 tx_seq l ins eff (p_dst p) (p_asset p) (p_amt p) false dx acd stx tid Hwa3 Hwm3 EA2 l' Hl').
+    cbn [d_moves d3 set_moves]. unfold rows1, new1.
+    rewrite (im_abs_other_ledger d2 tx_seq l ins eff (p_src p) (p_asset p) (p_amt p) true sx acs stx tid (as_wf _ _ _ _ _ S2) Hwm2 EA1 l' Hl').
+    rewrite M2, M1. reflexivity.
+  - rewrite (absB_ext d2 d4) by reflexivity. unfold B_posting.
+    rewrite (as_B _ _ _ _ _ S2), (as_B _ _ _ _ _ S1). reflexivity.
+  - intros l' Hl'. rewrite (absB_ext d2 d4) by reflexivity.
+    rewrite (as_B_other _ _ _ _ _ S2 l' Hl'), (as_B_other _ _ _ _ _ S1 l' Hl'). reflexivity.
+  - intros l' a' Hf. rewrite (find_account_ext d2 d4) by reflexivity.
+    apply (as_mono _ _ _ _ _ S2). apply (as_mono _ _ _ _ _ S1). assumption.
+Qed.
+
+Lemma postings_step : forall ps d tx_seq l ins eff am stx tid,
+  WFam d stx -> tx_seq < stx ->
+  (exists r, In r (d_tx d) /\ x_seq r = tx_seq /\ x_ledger r = l) ->
+  exists d', fold_opt (fun d p => insert_posting d tx_seq l ins eff am p) ps d = Some d' /\ WFam d' stx /\
+    frame_post d d' /\
+    viewA l tid d' = fold_left (A_posting (tid tx_seq) ins eff) ps (viewA l tid d) /\
+    (forall l', l' <> l -> viewA l' tid d' = viewA l' tid d) /\
+    absB l d' = fold_left (B_posting ins am) ps (absB l d) /\
+    (forall l', l' <> l -> absB l' d' = absB l' d).
+Proof.
+  induction ps as [|p ps IH]; intros d tx_seq l ins eff am stx tid Hw Htx Htxrow.
+  - exists d. cbn. split; [reflexivity|]. split; [exact Hw|]. split; [apply frame_post_refl|].
+    split; [reflexivity|]. split; [reflexivity|]. split; reflexivity.
+  - destruct (insert_posting_step d tx_seq l ins eff am p stx tid Hw Htx Htxrow)
+      as [d1 [E1 [W1 [F1 [A1 [A1o [B1 [B1o _]]]]]]]].
+    assert (Htxrow1 : exists r, In r (d_tx d1) /\ x_seq r = tx_seq /\ x_ledger r = l).
+    { destruct F1 as [-> _]. exact Htxrow. }
+    destruct (IH d1 tx_seq l ins eff am stx tid W1 Htx Htxrow1) as [d2 [E2 [W2 [F2 [A2 [A2o [B2 B2o]]]]]]].
+    exists d2. cbn [fold_opt fold_left]. rewrite E1. split; [exact E2|]. split; [exact W2|].
+    split; [eapply frame_post_trans; eassumption|].
+    split; [rewrite A2, A1; reflexivity|].
+    split; [intros l' Hl'; rewrite (A2o l' Hl'), (A1o l' Hl'); reflexivity|].
+    split; [rewrite B2, B1; reflexivity|].
+    intros l' Hl'. rewrite (B2o l' Hl'), (B1o l' Hl'). reflexivity.
+Qed.
+
+(* ---- Part 6: insert_transaction and handle_log ------------------------------------------------------------------------- *)
+Lemma abs_moves_tid_ext : forall l tid1 tid2 ms,
+  (forall m, In m ms -> tid1 (m_tx_seq m) = tid2 (m_tx_seq m)) -> abs_moves l tid1 ms = abs_moves l tid2 ms.
+Proof.
+  intros. unfold abs_moves. apply map_ext_in'. intros m Hm. apply filter_In in Hm. destruct Hm as [Hm _].
+  unfold bmove_of. rewrite (H m Hm). reflexivity.
+Qed.
+
+Lemma txid_of_cons_old : forall new txs seq, x_seq new <> seq -> txid_of (new :: txs) seq = txid_of txs seq.
+Proof.
+  intros. unfold txid_of. cbn [filter]. assert (Z.eqb (x_seq new) seq = false) as -> by (apply Z.eqb_neq; assumption).
+  reflexivity.
+Qed.
+
+Lemma txid_of_cons_new : forall new txs, txid_of (new :: txs) (x_seq new) = x_id new.
+Proof. intros. unfold txid_of. cbn [filter]. rewrite Z.eqb_refl. reflexivity. Qed.
+
+Lemma existsb_tx_is_false : forall l id txs, existsb (tx_is l id) txs = false ->
+  forall r, In r txs -> (x_ledger r, x_id r) <> (l, id).
+Proof.
+  intros l id txs H r Hr E. inversion E; subst.
+  assert (existsb (tx_is (x_ledger r) (x_id r)) txs = true) as C.
+  { apply existsb_exists. exists r. split; [assumption|]. unfold tx_is. rewrite N.eqb_refl, Z.eqb_refl. reflexivity. }
+  congruence.
+Qed.
+
+(* the tables of transactions after INSERT INTO transactions + its trigger + the explicit revision 0 *)
+Lemma tx_insert_tables : forall txs txm s l tx k1 k0,
+  WFtx txs txm s -> existsb (tx_is l (t_id tx)) txs = false ->
+  let new := {| x_seq := s; x_ledger := l; x_id := t_id tx; x_ts := t_ts tx; x_ref := t_ref tx;
+                x_reverted_at := None; x_updated_at := Some (t_ts tx); x_postings := t_postings tx; x_meta := t_meta tx |} in
+  let h1 := {| xm_seq := k1; xm_ledger := l; xm_tx_seq := s; xm_rev := 1; xm_date := t_ts tx; xm_meta := t_meta tx |} in
+  let h0 := {| xm_seq := k0; xm_ledger := l; xm_tx_seq := s; xm_rev := 0; xm_date := t_ts tx; xm_meta := t_meta tx |} in
+  WFtx (new :: txs) (h0 :: h1 :: txm) (s + 1) /\
+  map (btx_of (h0 :: h1 :: txm)) (filter (fun r => N.eqb (x_ledger r) l) (new :: txs)) =
+    C_insert (map (btx_of txm) (filter (fun r => N.eqb (x_ledger r) l) txs)) tx /\
+  (forall l', l' <> l -> map (btx_of (h0 :: h1 :: txm)) (filter (fun r => N.eqb (x_ledger r) l') (new :: txs)) =
+                        map (btx_of txm) (filter (fun r => N.eqb (x_ledger r) l') txs)).
+Proof.
+  intros txs txm s l tx k1 k0 Hw Hex new h1 h0.
+  assert (Hold : forall r, In r txs -> btx_of (h0 :: h1 :: txm) r = btx_of txm r).
+  { intros r Hr. unfold btx_of. f_equal. cbn [filter xm_tx_seq h0 h1].
+    assert (Z.eqb s (x_seq r) = false) as ->; [|reflexivity].
+    apply Z.eqb_neq. pose proof (wt_bound _ _ _ Hw r Hr). lia. }
+  split; [|split].
+  - constructor.
+    + intros r [<-|Hr]; cbn; [lia|]. pose proof (wt_bound _ _ _ Hw r Hr). lia.
+    + cbn. constructor; [|apply Hw]. intros C. apply in_map_iff in C. destruct C as [r [E Hr]].
+      pose proof (wt_bound _ _ _ Hw r Hr). lia.
+    + cbn. constructor; [|apply Hw]. intros C. apply in_map_iff in C. destruct C as [r [E Hr]].
+      apply (existsb_tx_is_false _ _ _ Hex r Hr). exact E.
+    + intros h [<-|[<-|Hh]]; cbn; try lia. pose proof (wt_hist _ _ _ Hw h Hh). lia.
+  - cbn [filter x_ledger new]. rewrite N.eqb_refl. cbn [map]. unfold C_insert. f_equal.
+    + unfold btx_of. cbn [x_id x_ts x_ref x_reverted_at x_updated_at x_postings x_meta x_seq new filter xm_tx_seq h0 h1].
+      rewrite Z.eqb_refl. cbn [map]. rewrite filter_none; [reflexivity|].
+      intros h Hh. apply Z.eqb_neq. pose proof (wt_hist _ _ _ Hw h Hh). lia.
+    + apply map_ext_in'. intros r Hr. apply filter_In in Hr. apply Hold. tauto.
+  - intros l' Hl'. cbn [filter x_ledger new]. assert (N.eqb l l' = false) as -> by (apply N.eqb_neq; congruence).
+    apply map_ext_in'. intros r Hr. apply filter_In in Hr. apply Hold. tauto.
+Qed.
+
+Definition absA_step (l : N) (d d' : db) (e : log) : Prop :=
+  absA l d' = if N.eqb (l_ledger e) l then A_step (absA l d) e else absA l d.
+Definition absB_step (l : N) (d d' : db) (e : log) : Prop :=
+  absB l d' = if N.eqb (l_ledger e) l then B_step (absB l d) e else absB l d.
+Definition absC_step (l : N) (d d' : db) (e : log) : Prop :=
+  absC l d' = if N.eqb (l_ledger e) l then C_step (absC l d) e else absC l d.
+
+Lemma absC_ext : forall d d' l, d_tx d' = d_tx d -> d_txm d' = d_txm d -> absC l d' = absC l d.
+Proof. intros. unfold absC. rewrite H, H0. reflexivity. Qed.
+
+(* insert_transaction, for the ledger of the entry and for the other ledgers *)
+Lemma insert_transaction_step : forall d l tx date am d',
+  WF d -> insert_transaction d l tx date am = Some d' ->
+  WF d' /\ d_logs d' = d_logs d /\ s_logs d' = s_logs d /\
+  absA l d' = A_tx (absA l d) tx date /\ (forall l', l' <> l -> absA l' d' = absA l' d) /\
+  absB l d' = fold_left (B_posting date am) (t_postings tx) (absB l d) /\ (forall l', l' <> l -> absB l' d' = absB l' d) /\
+  absC l d' = C_insert (absC l d) tx /\ (forall l', l' <> l -> absC l' d' = absC l' d).
+Proof.
+  intros d l tx date am d' [Wa Wt Wm Wmt] H. unfold insert_transaction in H.
+  destruct (existsb (tx_is l (t_id tx)) (d_tx d)) eqn:Hex; [discriminate|].
+  set (new := {| x_seq := s_tx d; x_ledger := l; x_id := t_id tx; x_ts := t_ts tx; x_ref := t_ref tx;
+                 x_reverted_at := None; x_updated_at := Some (t_ts tx); x_postings := t_postings tx;
+                 x_meta := t_meta tx |}) in *.
+  unfold trg_insert_transaction in H. unfold insert_txm in H at 1.
+  cbn [x_ledger x_seq x_ts x_meta new set_tx d_txm s_txm] in H.
+  set (d1 := set_txm (set_tx d (new :: d_tx d) (s_tx d + 1)) _ (s_txm d + 1)) in H.
+  set (tid := txid_of (d_tx d1)).
+  assert (W1 : WFam d1 (s_tx d + 1)).
+  { constructor; [exact Wa| |].
+    - destruct Wm as [S B A T]. constructor; auto. intros m Hm. pose proof (T m Hm). cbn. lia.
+    - intros m Hm. destruct (Wmt m Hm) as [r [Hr Hrest]]. exists r. split; [right; exact Hr|exact Hrest]. }
+  assert (Hrow1 : exists r, In r (d_tx d1) /\ x_seq r = s_tx d /\ x_ledger r = l).
+  { exists new. split; [left; reflexivity|split; reflexivity]. }
+  destruct (postings_step (t_postings tx) d1 (s_tx d) l date (t_ts tx) am (s_tx d + 1) tid W1 ltac:(lia) Hrow1)
+    as [d2 [E2 [W2 [F2 [A2 [A2o [B2 B2o]]]]]]].
+  rewrite E2 in H. unfold insert_txm in H. inversion H; subst d'; clear H.
+  destruct F2 as [T2 [TM2 [ST2 [STM2 [L2 SL2]]]]].
+  destruct (tx_insert_tables (d_tx d) (d_txm d) (s_tx d) l tx (s_txm d) (s_txm d2) Wt Hex) as [Wt3 [C3 C3o]].
+  fold new in Wt3, C3, C3o.
+  assert (Htid_old : forall m, In m (d_moves d) -> tid (m_tx_seq m) = txid_of (d_tx d) (m_tx_seq m)).
+  { intros m Hm. unfold tid. cbn [d1 d_tx set_txm set_tx]. apply txid_of_cons_old. cbn.
+    pose proof (wm_tx _ _ _ _ Wm m Hm). lia. }
+  assert (Htid_new : tid (s_tx d) = t_id tx) by (unfold tid; cbn [d1 d_tx set_txm set_tx]; apply (txid_of_cons_new new)).
+  assert (V1 : forall l', viewA l' tid d1 = absA l' d).
+  { intros l'. unfold viewA, absA. cbn [d1 d_acc d_moves set_txm set_tx]. f_equal. apply abs_moves_tid_ext. exact Htid_old. }
+  split; [|split; [|split; [|split; [|split; [|split; [|split; [|split]]]]]]].
+  - constructor; cbn [d_acc d_accm s_acc d_tx d_txm s_tx d_moves s_moves set_txm].
+    + apply W2.
+    + rewrite T2, TM2, ST2. exact Wt3.
+    + rewrite ST2. apply W2.
+    + apply W2.
+  - cbn. rewrite L2. reflexivity.
+  - cbn. rewrite SL2. reflexivity.
+  - unfold absA at 1. cbn [d_acc d_tx d_moves set_txm]. rewrite T2. fold tid. fold (viewA l tid d2).
+    rewrite A2, Htid_new, V1. reflexivity.
+  - intros l' Hl'. unfold absA at 1. cbn [d_acc d_tx d_moves set_txm]. rewrite T2. fold tid. fold (viewA l' tid d2).
+    rewrite (A2o l' Hl'), V1. reflexivity.
+  - rewrite (absB_ext d2) by reflexivity. rewrite B2. reflexivity.
+  - intros l' Hl'. rewrite (absB_ext d2) by reflexivity. rewrite (B2o l' Hl'). reflexivity.
+  - unfold absC at 1. cbn [d_tx d_txm set_txm]. rewrite T2, TM2. exact C3.
+  - intros l' Hl'. unfold absC at 1. cbn [d_tx d_txm set_txm]. rewrite T2, TM2. exact (C3o l' Hl').
+Qed.
+
+(* lifting the account-only and transaction-only operations to the whole database *)
+Lemma acc_step_lift : forall l d d' kn ac,
+  WF d -> acc_step l d d' kn ac ->
+  WF d' /\ d_logs d' = d_logs d /\ s_logs d' = s_logs d /\
+  absA l d' = (kn (fst (absA l d)), snd (absA l d)) /\ (forall l', l' <> l -> absA l' d' = absA l' d) /\
+  absB l d' = ac (absB l d) /\ (forall l', l' <> l -> absB l' d' = absB l' d) /\
+  (forall l', absC l' d' = absC l' d).
+Proof.
+  intros l d d' kn ac [Wa Wt Wm Wmt] S.
+  destruct (as_frame _ _ _ _ _ S) as [M [SM [T [TM [ST [STM [L SL]]]]]]].
+  split; [|split; [|split; [|split; [|split; [|split; [|split]]]]]]; auto.
+  - constructor.
+    + apply S.
+    + rewrite T, TM, ST. exact Wt.
+    + rewrite M, SM, ST. apply (WFmoves_accs _ _ (d_acc d)); [exact Wm|]. apply S.
+    + rewrite M, T. exact Wmt.
+  - unfold absA. cbn [fst snd]. rewrite (as_known _ _ _ _ _ S), M, T. reflexivity.
+  - intros l' Hl'. unfold absA. rewrite (as_known_other _ _ _ _ _ S l' Hl'), M, T. reflexivity.
+  - apply S.
+  - apply S.
+  - intros l'. apply absC_ext; assumption.
+Qed.
+
+Lemma tx_step_lift : forall l d d' tc,
+  WF d -> tx_step l d d' tc ->
+  WF d' /\ d_logs d' = d_logs d /\ s_logs d' = s_logs d /\
+  (forall l', absA l' d' = absA l' d) /\ (forall l', absB l' d' = absB l' d) /\
+  absC l d' = tc (absC l d) /\ (forall l', l' <> l -> absC l' d' = absC l' d).
+Proof.
+  intros l d d' tc [Wa Wt Wm Wmt] S.
+  destruct (ts_frame _ _ _ _ S) as [M [SM [A [AM [SA [SAM [L SL]]]]]]].
+  split; [|split; [|split; [|split; [|split; [|split]]]]]; auto.
+  - constructor.
+    + rewrite A, AM, SA. exact Wa.
+    + apply S.
+    + rewrite M, SM, A. destruct Wm as [S1 B1 A1 T1]. constructor; auto.
+      intros m Hm. pose proof (T1 m Hm). pose proof (ts_stx _ _ _ _ S). lia.
+    + rewrite M. intros m Hm. destruct (Wmt m Hm) as [r [Hr [Hs Hl]]].
+      destruct (ts_rows _ _ _ _ S r Hr) as [r' [Hr' [Hs' Hl']]]. exists r'. split; [exact Hr'|]. split; congruence.
+  - intros l'. unfold absA. rewrite A, M. f_equal. apply abs_moves_tid_ext.
+    intros m Hm. apply (ts_tid _ _ _ _ S). apply (wm_tx _ _ _ _ Wm). assumption.
+  - intros l'. apply absB_ext; assumption.
+  - apply S.
+  - apply S.
+Qed.
+
+Lemma upserts_fold : forall (am : list (N * meta)) d l date,
+  WF d ->
+  let d' := fold_left (fun d kv => upsert_account d l (fst kv) (Some (snd kv)) date) am d in
+  WF d' /\ d_logs d' = d_logs d /\ s_logs d' = s_logs d /\
+  absA l d' = (fold_left (fun k kv => A_known_add (fst kv) k) am (fst (absA l d)), snd (absA l d)) /\
+  (forall l', l' <> l -> absA l' d' = absA l' d) /\
+  absB l d' = fold_left (fun accs kv => B_upsert accs (fst kv) (Some (snd kv)) date) am (absB l d) /\
+  (forall l', l' <> l -> absB l' d' = absB l' d) /\
+  (forall l', absC l' d' = absC l' d).
+Proof.
+  induction am as [|kv am IH]; intros d l date W; cbn [fold_left].
+  - split; [exact W|]. split; [reflexivity|]. split; [reflexivity|].
+    split; [destruct (absA l d); reflexivity|]. split; [reflexivity|]. split; [reflexivity|]. split; reflexivity.
+  - destruct (upsert_account_step d l (fst kv) (Some (snd kv)) date (wf_acc _ W)) as [S _].
+    destruct (acc_step_lift _ _ _ _ _ W S) as [W1 [L1 [SL1 [A1 [A1o [B1 [B1o C1]]]]]]].
+    specialize (IH (upsert_account d l (fst kv) (Some (snd kv)) date) l date W1). cbn zeta in IH.
+    destruct IH as [W2 [L2 [SL2 [A2 [A2o [B2 [B2o C2]]]]]]].
+    split; [exact W2|]. split; [congruence|]. split; [congruence|].
+    split; [rewrite A2, A1; reflexivity|].
+    split; [intros l' Hl'; rewrite (A2o l' Hl'), (A1o l' Hl'); reflexivity|].
+    split; [rewrite B2, B1; reflexivity|].
+    split; [intros l' Hl'; rewrite (B2o l' Hl'), (B1o l' Hl'); reflexivity|].
+    intros l'. rewrite C2, C1. reflexivity.
+Qed.
+
+Theorem handle_log_step : forall d e d',
+  WF d -> handle_log d e = Some d' ->
+  WF d' /\ forall l, absA_step l d d' e /\ absB_step l d d' e /\ absC_step l d d' e.
+Proof.
+  intros d e d' W H. unfold handle_log in H.
+  destruct (existsb _ (d_logs d)); [discriminate|].
+  set (d0 := set_logs d _ (s_logs d + 1)) in H.
+  assert (W0 : WF d0) by (destruct W as [Wa Wt Wm Wmt]; constructor; assumption).
+  assert (A0 : forall l, absA l d0 = absA l d) by reflexivity.
+  assert (B0 : forall l, absB l d0 = absB l d) by reflexivity.
+  assert (C0 : forall l, absC l d0 = absC l d) by reflexivity.
+  unfold absA_step, absB_step, absC_step, A_step, B_step, C_step.
+  destruct (l_data e) as [tx am|tx rid|[a|id] m|[a|id] k] eqn:ED.
+  - (* NEW_TRANSACTION *)
+    destruct (insert_transaction d0 (l_ledger e) tx (l_date e) am) as [d1|] eqn:E1; [|discriminate].
+    inversion H; subst d'; clear H.
+    destruct (insert_transaction_step _ _ _ _ _ _ W0 E1) as [W1 [_ [_ [A1 [A1o [B1 [B1o [C1 C1o]]]]]]]].
+    destruct (upserts_fold am d1 (l_ledger e) (t_ts tx) W1) as [W2 [_ [_ [A2 [A2o [B2 [B2o C2]]]]]]].
+    split; [exact W2|]. intros l. destruct (N.eqb_spec (l_ledger e) l) as [<-|Hne].
+    + split; [|split].
+      * rewrite A2, A1, A0. destruct (A_tx (absA (l_ledger e) d) tx (l_date e)); reflexivity.
+      * rewrite B2, B1, B0. reflexivity.
+      * rewrite C2, C1, C0. reflexivity.
+    + assert (l <> l_ledger e) as Hne' by congruence.
+      split; [|split].
+      * rewrite (A2o l Hne'), (A1o l Hne'), A0. reflexivity.
+      * rewrite (B2o l Hne'), (B1o l Hne'), B0. reflexivity.
+      * rewrite C2, (C1o l Hne'), C0. reflexivity.
+  - (* REVERTED_TRANSACTION *)
+    destruct (insert_transaction d0 (l_ledger e) tx (l_date e) []) as [d1|] eqn:E1; [|discriminate].
+    destruct (insert_transaction_step _ _ _ _ _ _ W0 E1) as [W1 [_ [_ [A1 [A1o [B1 [B1o [C1 C1o]]]]]]]].
+    unfold revert_transaction in H.
+    pose proof (update_transactions_step d1 (l_ledger e) rid (fun _ => Some (t_ts tx)) x_updated_at x_meta
+                  (fun r => (Some (t_ts tx), bx_updated_at r, bx_meta r)) d' (wf_tx _ W1) ltac:(reflexivity) H) as S.
+    destruct (tx_step_lift _ _ _ _ W1 S) as [W2 [_ [_ [A2 [B2 [C2 C2o]]]]]].
+    split; [exact W2|]. intros l. destruct (N.eqb_spec (l_ledger e) l) as [<-|Hne].
+    + split; [|split].
+      * rewrite A2, A1, A0. reflexivity.
+      * rewrite B2, B1, B0. reflexivity.
+      * rewrite C2, C1, C0. reflexivity.
+    + assert (l <> l_ledger e) as Hne' by congruence.
+      split; [|split].
+      * rewrite A2, (A1o l Hne'), A0. reflexivity.
+      * rewrite B2, (B1o l Hne'), B0. reflexivity.
+      * rewrite (C2o l Hne'), (C1o l Hne'), C0. reflexivity.
+  - (* SET_METADATA on an account *)
+    inversion H; subst d'; clear H.
+    destruct (upsert_account_step d0 (l_ledger e) a (Some m) (l_date e) (wf_acc _ W0)) as [S _].
+    destruct (acc_step_lift _ _ _ _ _ W0 S) as [W1 [_ [_ [A1 [A1o [B1 [B1o C1]]]]]]].
+    split; [exact W1|]. intros l. destruct (N.eqb_spec (l_ledger e) l) as [<-|Hne].
+    + split; [|split]; [rewrite A1, A0 | rewrite B1, B0 | rewrite C1, C0]; reflexivity.
+    + assert (l <> l_ledger e) as Hne' by congruence.
+      split; [|split]; [rewrite (A1o l Hne'), A0 | rewrite (B1o l Hne'), B0 | rewrite C1, C0]; reflexivity.
+  - (* SET_METADATA on a transaction *)
+    unfold update_transaction_metadata in H.
+    pose proof (update_transactions_step d0 (l_ledger e) id x_reverted_at (fun _ => Some (l_date e))
+                  (fun r => meta_merge (x_meta r) m)
+                  (fun r => (bx_reverted_at r, Some (l_date e), meta_merge (bx_meta r) m)) d' (wf_tx _ W0)
+                  ltac:(reflexivity) H) as S.
+    destruct (tx_step_lift _ _ _ _ W0 S) as [W2 [_ [_ [A2 [B2 [C2 C2o]]]]]].
+    split; [exact W2|]. intros l. destruct (N.eqb_spec (l_ledger e) l) as [<-|Hne].
+    + split; [|split]; [rewrite A2, A0 | rewrite B2, B0 | rewrite C2, C0]; reflexivity.
+    + assert (l <> l_ledger e) as Hne' by congruence.
+      split; [|split]; [rewrite A2, A0 | rewrite B2, B0 | rewrite (C2o l Hne'), C0]; reflexivity.
+  - (* DELETE_METADATA on an account *)
+    inversion H; subst d'; clear H.
+    pose proof (delete_account_metadata_step d0 (l_ledger e) a k (l_date e) (wf_acc _ W0)) as S.
+    destruct (acc_step_lift _ _ _ _ _ W0 S) as [W1 [_ [_ [A1 [A1o [B1 [B1o C1]]]]]]].
+    split; [exact W1|]. intros l. destruct (N.eqb_spec (l_ledger e) l) as [<-|Hne].
+    + split; [|split]; [rewrite A1, A0; destruct (absA (l_ledger e) d) | rewrite B1, B0 | rewrite C1, C0]; reflexivity.
+    + assert (l <> l_ledger e) as Hne' by congruence.
+      split; [|split]; [rewrite (A1o l Hne'), A0 | rewrite (B1o l Hne'), B0 | rewrite C1, C0]; reflexivity.
+  - (* DELETE_METADATA on a transaction *)
+    unfold delete_transaction_metadata in H.
+    pose proof (update_transactions_step d0 (l_ledger e) id x_reverted_at (fun _ => Some (l_date e))
+                  (fun r => meta_del (x_meta r) k)
+                  (fun r => (bx_reverted_at r, Some (l_date e), meta_del (bx_meta r) k)) d' (wf_tx _ W0)
+                  ltac:(reflexivity) H) as S.
+    destruct (tx_step_lift _ _ _ _ W0 S) as [W2 [_ [_ [A2 [B2 [C2 C2o]]]]]].
+    split; [exact W2|]. intros l. destruct (N.eqb_spec (l_ledger e) l) as [<-|Hne].
+    + split; [|split]; [rewrite A2, A0 | rewrite B2, B0 | rewrite C2, C0]; reflexivity.
+    + assert (l <> l_ledger e) as Hne' by congruence.
+      split; [|split]; [rewrite A2, A0 | rewrite B2, B0 | rewrite (C2o l Hne'), C0]; reflexivity.
+Qed.
+
+(* ---- the projection theorem ---------------------------------------------------------------------------------------------- *)
+Theorem run_from_refines : forall L d0 d,
+  WF d0 -> run_from d0 L = Some d ->
+  WF d /\ forall l,
+    absA l d = fold_left A_step (ledger_logs l L) (absA l d0) /\
+    absB l d = fold_left B_step (ledger_logs l L) (absB l d0) /\
+    absC l d = fold_left C_step (ledger_logs l L) (absC l d0).
+Proof.
+  induction L as [|e L IH]; intros d0 d W H; unfold run_from in *; cbn [fold_opt] in H.
+  - inversion H; subst. split; [exact W|]. intros l. cbn. auto.
+  - destruct (handle_log d0 e) as [d1|] eqn:E1; [|discriminate].
+    destruct (handle_log_step _ _ _ W E1) as [W1 S1].
+    destruct (IH d1 d W1 H) as [W2 S2]. split; [exact W2|]. intros l.
+    destruct (S1 l) as [A1 [B1 C1]]. destruct (S2 l) as [A2 [B2 C2]].
+    unfold absA_step, absB_step, absC_step in *. unfold ledger_logs in *. cbn [filter].
+    destruct (N.eqb (l_ledger e) l); cbn [fold_left]; rewrite A2, B2, C2, A1, B1, C1; auto.
+Qed.
+
+Theorem run_refines : forall L d,
+  run L = Some d ->
+  WF d /\ forall l, absA l d = A_run (ledger_logs l L) /\ absB l d = B_run (ledger_logs l L) /\
+                    absC l d = C_run (ledger_logs l L).
+Proof. intros L d H. exact (run_from_refines L empty_db d WF_empty H). Qed.
